@@ -187,4 +187,7 @@ def event_digest(reply):
     """Normalised digest of everything observable about one execution."""
     result = reply.get("result") or {}
     ops = [[o.get("exit"), o.get("exc"), o.get("stdout"), o.get("stderr"), o.get("api")] for o in result.get("ops", [])]
-    return digest([reply.get("status"), ops, result.get("log"), result.get("sites"), result.get("fired"), reply.get("work"), reply.get("tmp"), reply.get("work_dirs")])
+    # log files carry %(asctime)s time stamps (the only clock reading in the
+    # system under test): their presence is part of the digest, their text is not
+    work = {name: (spec if not name.endswith(".log") else "<log file>") for name, spec in (reply.get("work") or {}).items()}
+    return digest([reply.get("status"), ops, result.get("log"), result.get("sites"), result.get("fired"), work, reply.get("tmp"), reply.get("work_dirs")])
